@@ -586,6 +586,26 @@ var c19BodyTpls = []c19BodyTpl{
 	{Name: "attr-marked-object-variable-to-map", Src: "a = okey\n", Spec: func() hcldec.Spec { return &hcldec.AttrSpec{Name: "a", Type: cty.Map(cty.List(cty.String))} }},
 	{Name: "blockattrs-map-element-not-convertible", Src: "blk {\n  x = {(s) = \"notanumber\"}\n}\n", Spec: func() hcldec.Spec { return &hcldec.BlockAttrsSpec{TypeName: "blk", ElementType: cty.Map(cty.Number)} }},
 	{Name: "blockattrs-wrong-type", Src: "blk {\n  x = s\n  y = lst\n}\n", Spec: func() hcldec.Spec { return &hcldec.BlockAttrsSpec{TypeName: "blk", ElementType: cty.Number} }},
+	// collections of blocks over an argument of no particular type whose values
+	// do not unify: the error must not describe types built from secret keys
+	{Name: "blocklist-inconsistent-types-secret-key", Src: "blk {\n  x = {(s) = \"str\"}\n}\nblk {\n  x = {(s) = [1]}\n}\n", Spec: func() hcldec.Spec {
+		return &hcldec.BlockListSpec{TypeName: "blk", Nested: hcldec.ObjectSpec{"x": &hcldec.AttrSpec{Name: "x", Type: cty.DynamicPseudoType}}}
+	}},
+	{Name: "blockset-inconsistent-types-secret-key", Src: "blk {\n  x = {(s) = \"str\"}\n}\nblk {\n  x = {(s) = [1]}\n}\n", Spec: func() hcldec.Spec {
+		return &hcldec.BlockSetSpec{TypeName: "blk", Nested: hcldec.ObjectSpec{"x": &hcldec.AttrSpec{Name: "x", Type: cty.DynamicPseudoType}}}
+	}},
+	{Name: "blocklist-inconsistent-types-secret-key-nested", Src: "blk {\n  x = [{(s) = true}]\n}\nblk {\n  x = \"plain\"\n}\nblk {\n  x = {(s) = {(s) = 1}}\n}\n", Spec: func() hcldec.Spec {
+		return &hcldec.BlockListSpec{TypeName: "blk", Nested: hcldec.ObjectSpec{"x": &hcldec.AttrSpec{Name: "x", Type: cty.DynamicPseudoType}}}
+	}},
+	{Name: "blocklist-inconsistent-types-marked-object-variable", Src: "blk {\n  x = okey\n}\nblk {\n  x = [okey]\n}\n", Spec: func() hcldec.Spec {
+		return &hcldec.BlockListSpec{TypeName: "blk", Nested: hcldec.ObjectSpec{"x": &hcldec.AttrSpec{Name: "x", Type: cty.DynamicPseudoType}}}
+	}},
+	{Name: "blocktuple-and-map-secret-key", Src: "blk \"a\" {\n  x = {(s) = \"str\"}\n}\nblk \"a\" {\n  x = {(s) = [1]}\n}\n", Spec: func() hcldec.Spec {
+		return &hcldec.BlockObjectSpec{TypeName: "blk", LabelNames: []string{"n"}, Nested: hcldec.ObjectSpec{"x": &hcldec.AttrSpec{Name: "x", Type: cty.DynamicPseudoType}}}
+	}},
+	{Name: "dyn-blocklist-inconsistent-types", Src: "dynamic \"blk\" {\n  for_each = [1, 2]\n  content {\n    v = blk.value == 1 ? {(s) = \"str\"} : [s]\n  }\n}\n", Spec: func() hcldec.Spec {
+		return &hcldec.BlockListSpec{TypeName: "blk", Nested: hcldec.ObjectSpec{"v": &hcldec.AttrSpec{Name: "v", Type: cty.DynamicPseudoType}}}
+	}, Dyn: true},
 	{Name: "validate", Src: "a = s\n", Spec: func() hcldec.Spec {
 		return &hcldec.ValidateSpec{Wrapped: &hcldec.AttrSpec{Name: "a", Type: cty.String}, Func: func(v cty.Value) hcl.Diagnostics {
 			return hcl.Diagnostics{{Severity: hcl.DiagError, Summary: "Rejected", Detail: "value rejected by the application"}}
